@@ -32,7 +32,16 @@ let run (args : (string * string) list) : string =
   let op = get args "op" in
   let g = nlists (get args "g") in
   let n = List.length g in
-  let p = nat_of_int (get_int args "t") in
+  (* the number of partitions of the result is the implementation's choice (one per pool
+     thread today): the model is run for the number of partitions the implementation produced
+     - the theorems hold for every positive count - so that boundaries and lenders are
+     compared with the sorter's boundaries for that count *)
+  let p =
+    let t = get_int args "t" in
+    let observed = (match get_opt args "bounds" with
+        | Some b when b <> "" && b <> "-" -> List.length (ints_of_string b) - 1
+        | _ -> 0) in
+    nat_of_int (if observed >= 1 then observed else t) in
   let status = get args "status" in
   let malformed = get_int args "malformed" = 1 in
   let nl = get_int args "nl" = 1 in
